@@ -213,6 +213,24 @@ MUTANTS = [
 ]
 
 BENIGN = [
+ dict(id="B19b", props=["C19", "C01", "C02", "C07"], file=SQ + "periodic_disk_revolve.py", what="periodic sweep rewritten as for loops over a period index (correct count)",
+      edits=[("""    current_task = 0
+    while l - current_task > mx:
+        sequence.insert(operation("Write_disk", current_task))
+        sequence.insert(operation("Forward",
+                                  [current_task, current_task + mx]))
+        current_task += mx
+""", """    n_periods = (l - 1) // mx
+    for period in range(n_periods):
+        sequence.insert(operation("Write_disk", period * mx))
+        sequence.insert(operation("Forward",
+                                  [period * mx, (period + 1) * mx]))
+    current_task = n_periods * mx
+"""), ("""    while current_task > 0:
+        current_task -= mx
+        sequence.insert(operation("Read_disk", current_task))""", """    for period in reversed(range(n_periods)):
+        current_task = period * mx
+        sequence.insert(operation("Read_disk", current_task))""")], expect=[0, 2]),
  dict(id="B13a", props=["C01", "C03", "C04", "C09", "C13", "C08", "C02", "C12", "C18", "C11"], file=TL,
       what="TwoLevel reverse loop refactored through a cp_storage local (correct Move/Copy decision kept)",
       old="""                    if cp_n == self._max_n - self._r - 1:
